@@ -96,6 +96,8 @@ impl ModelChecker {
         S: Strategy,
     {
         let initial_state = self.system.get_state();
+        // the ordering mode is not a part of McState
+        let initial_ordering_mode = self.system.event_ordering_mode();
         self.system.trace_handler.borrow_mut().push(LogEntry::McStarted {});
         preliminary_callback(&mut self.system);
         strategy.mark_visited(self.system.get_state());
@@ -103,6 +105,7 @@ impl ModelChecker {
         strategy.reset();
         // McSystem is always rolled back to the state before MC run
         self.system.set_state(initial_state);
+        self.system.set_event_ordering_mode(initial_ordering_mode);
         res
     }
 
